@@ -6,6 +6,8 @@ import os, sys, json, subprocess, re, time
 ROOT = os.path.dirname(os.path.dirname(os.path.abspath(__file__)))
 allp = "--all-props" in sys.argv
 ids = sorted(d for d in os.listdir(f"{ROOT}/seeded") if os.path.isdir(f"{ROOT}/seeded/{d}"))
+# --only <regex>: run just the matching changes and merge their rows into the existing seeded/results.json
+only = sys.argv[sys.argv.index("--only") + 1] if "--only" in sys.argv else None
 props = [json.loads(l)["id"] for l in open(f"{ROOT}/properties.jsonl")]
 assert not subprocess.run(["git", "-C", "/repo", "status", "--short"], stdout=subprocess.PIPE, text=True).stdout.strip(), "/repo not clean"
 res = {}
@@ -13,8 +15,10 @@ res = {}
 partial = f"{ROOT}/seeded/results.partial.json"
 if "--resume" in sys.argv and os.path.exists(partial):
     res = json.load(open(partial))
+if only and os.path.exists(f"{ROOT}/seeded/results.json") and not res:
+    res = {k: v for k, v in json.load(open(f"{ROOT}/seeded/results.json")).items() if not re.search(only, k)}
 for sid in ids:
-    if sid in res:
+    if sid in res or (only and not re.search(only, sid)):
         continue
     meta = json.load(open(f"{ROOT}/seeded/{sid}/meta.json"))
     target = meta["breaks_property"]
